@@ -30,7 +30,12 @@ text = ["### 14.6 Independent seeded changes (sub-agents given only the property
         "Each change was confirmed in a scratch worktree outside /repo and /verif (`tools/seedcheck.sh`: it builds, the",
         "existing suite passes with it, its demonstration fails with it and passes without it) and kept under",
         "`/verif/seeded/<name>/` (patch.diff, demonstration, meta.json). Column *caught by* is the quick check run against",
-        "the changed tree and the first failing oracle. %d changes, %d detected." % (len(rows), ndet), "",
+        "the changed tree and the first failing oracle. %d changes, %d detected." % (len(rows), ndet),
+        "All changes of waves 1-10 were run again against the final checks (`seeded/REGRESSION-2026-09-28.txt`: each change at",
+        "HEAD - or at its base commit when a later fix: commit touches the same lines - against the first check that had",
+        "reported it): 189 of 194 reported again; `C07-K` is silent under C07 at HEAD (fix dfa78b7 closes its signing half; C10",
+        "still reports it), `C09-H` is moot after fix 201712a, `C07-D` ended in exit 2 on the loaded machine and is reported",
+        "when run alone, `C01-L` and `C18-H` are the two changes the machinery cannot decide.", "",
         "| seeded change | property | what it needs to manifest | caught by | note |", "|---|---|---|---|---|"] + rows + [""]
 p = os.path.join(V, "DESIGN.md")
 s = open(p).read()
